@@ -41,6 +41,7 @@ F_MD6 = "C02-md6-hash-regex-unanchored"
 F_TOP = "C02-toplevel-extension-without-extensions-property"
 F_EXT0 = "C02-empty-extensions-dictionary"
 F_MD20 = "C02-v20-marking-definition-created-without-milliseconds"
+F_SOCK = "C02-socket-option-boolean-for-integer"
 
 
 def _ident(**kw):
@@ -77,6 +78,7 @@ def witness_cases():
     add("toplevel-extension-no-slot", "construct", "2.1/ExternalReference",
         {"source_name": "s", "url": "http://x", "extensions": top, "anything": "y"})
     add("empty-extensions", "parse", "2.1/Identity", _ident(extensions={}))
+    add("socket-option-boolean", "construct", "2.1/SocketExt", {"address_family": "AF_INET", "options": {"SO_KEEPALIVE": True}})
     add("v20-marking-created-whole-second", "parse", "2.0/MarkingDefinition",
         {"type": "marking-definition", "id": "marking-definition--" + U, "created": "2017-01-01T00:00:00Z",
          "definition_type": "statement", "definition": {"statement": "s"}})
@@ -187,6 +189,21 @@ def norm_top(j, cid=None):
     return {k: v for k, v in j.items() if k in names}
 
 
+def norm_sock(j, cid=None):
+    """Only booleans among the values of a socket-ext `options` dictionary: write them as 1 / 0."""
+    def fix(o):
+        if isinstance(o, dict) and isinstance(o.get("options"), dict) and any(isinstance(v, bool) for v in o["options"].values()):
+            return dict(o, options={k: (int(v) if isinstance(v, bool) else v) for k, v in o["options"].items()})
+        return o
+    if cid in ("2.1/SocketExt", "2.0/SocketExt"):
+        return fix(j)
+    if isinstance(j, dict) and isinstance(j.get("extensions"), dict) and isinstance(j["extensions"].get("socket-ext"), dict):
+        e = dict(j["extensions"])
+        e["socket-ext"] = fix(e["socket-ext"])
+        return dict(j, extensions=e)
+    return j
+
+
 def norm_md20(j, cid=None):
     """Only a STIX 2.0 marking-definition whose `created` carries no fraction: write the three digits."""
     if cid != "2.0/MarkingDefinition" or not isinstance(j, dict) or not isinstance(j.get("created"), str):
@@ -196,7 +213,7 @@ def norm_md20(j, cid=None):
     return j
 
 
-NORMALISERS = [(F_MD20, norm_md20), (F_UUID, norm_uuid), (F_CONF, norm_conf), (F_NL, norm_nl), (F_MD6, norm_md6), (F_EXT0, norm_ext0),
+NORMALISERS = [(F_MD20, norm_md20), (F_SOCK, norm_sock), (F_UUID, norm_uuid), (F_CONF, norm_conf), (F_NL, norm_nl), (F_MD6, norm_md6), (F_EXT0, norm_ext0),
                (F_TOP, norm_top)]
 
 
@@ -207,13 +224,13 @@ def classify_invalid(items, pats):
     for n, (cid, j) in enumerate(items):
         alts = []
         for fid, f in NORMALISERS:
-            k = f(j, cid) if f in (norm_top, norm_md20) else f(j)
+            k = f(j, cid) if f in (norm_top, norm_md20, norm_sock) else f(j)
             if k != j:
                 alts.append(([fid], k))
         if len(alts) > 1:
             k = j
             for fid, f in NORMALISERS:
-                k = f(k, cid) if f in (norm_top, norm_md20) else f(k)
+                k = f(k, cid) if f in (norm_top, norm_md20, norm_sock) else f(k)
             alts.append(([a[0][0] for a in alts], k))
         for fids, k in alts:
             jobs.append((cid, k))
